@@ -87,6 +87,10 @@ CallStack(flow) ==
 (***************************************************************************)
 (* One instruction's effect on the loop state (C11)                        *)
 (*   s: [rip, count, finished, max, code_end, hasstack, depth]             *)
+(*   depth = height of the stack in slots above its initial (empty) level: *)
+(*   CALL and PUSH add one, RET and POP remove one - the "stack is empty"  *)
+(*   test of a top-level RET is about the stack POINTER, not about the     *)
+(*   record of calls.                                                      *)
 (***************************************************************************)
 Gate(s) == IF s.finished THEN "finished"
            ELSE IF s.max # NoLimit /\ s.count >= s.max THEN "limit"
@@ -110,10 +114,10 @@ Effect(s, a, f) ==
               ELSE IF Taken(a, f) THEN a.target ELSE a.next
       fin  == TopLevelRet(s, a) \/ nrip = s.code_end
   IN [s EXCEPT !.rip = nrip, !.count = s.count + 1, !.finished = fin,
-               !.depth = IF a.kind = "call" THEN s.depth + 1
-                         ELSE IF a.kind = "ret" /\ ~TopLevelRet(s, a) THEN s.depth - 1 ELSE s.depth]
+               !.depth = IF a.kind \in {"call", "push"} THEN s.depth + 1
+                         ELSE IF a.kind = "pop" \/ (a.kind = "ret" /\ ~TopLevelRet(s, a)) THEN s.depth - 1 ELSE s.depth]
 
-Completes(a) == a.kind \in {"plain", "jmp", "jcc", "call", "ret", "syscall"}
+Completes(a) == a.kind \in {"plain", "jmp", "jcc", "call", "ret", "syscall", "push", "pop"}
 
 (***************************************************************************)
 (* Hook protocol (C12)                                                     *)
